@@ -534,3 +534,11 @@ package casket
 //@   ensures [lock_balance] held(instancesMu) == old(held(instancesMu))
 //@   loop 1 invariant forall(k, 0, len(instances), instances[k] != nil && instances[k].wg != nil) && held(instancesMu) == old(held(instancesMu))
 //@   loop 1 decreases len(instances)
+
+//@ unit event_delivery frames=on props=C16,C08 nilchecks=on filter=`casket\.EmitEvent\$1$`
+//@ // C16 "callbacks fire exactly once": an event reaches EVERY registered hook - the visit of one hook tells the registry
+//@ // walk to go on (true) also when that hook reported an error (sync.Map.Range stops at the first false)
+//@ extern log.Printf
+//@ func EmitEvent$1
+//@   may_panic
+//@   ensures [delivery_goes_on_after_a_failing_hook] result
